@@ -11,6 +11,8 @@
 (*        mc    a multi-character collating symbol occurs                   *)
 (*        cs    contents of the collating symbols / equivalence classes     *)
 (*        nt    descriptive notes on the pattern's shape (for reports)      *)
+(*        ft    constructs used: c q s b (atoms), c r cls sym eqv (items),  *)
+(*              neg (coverage statistics)                                   *)
 (*        m     the strings of the domain denoted by the pattern            *)
 (*        x     those of m that literal_period excludes                     *)
 (* Header line (printed once): dom = the string domain.                     *)
@@ -71,6 +73,12 @@ view == p
 Init == p = <<>> /\ n = 0
 Next == n < PLen /\ \E t \in Tokens : p' = p \o t /\ n' = n + 1
 
+\* which constructs of the notation the pattern uses (coverage statistics only)
+Features(A) ==
+  {A[a].t : a \in 1..Len(A)}
+  \cup UNION {{A[a].items[m].k : m \in 1..Len(A[a].items)} : a \in Brackets(A)}
+  \cup (IF \E a \in Brackets(A) : A[a].neg THEN {"neg"} ELSE {})
+
 Line ==
   LET P  == Parse(p)
       A  == P.atoms
@@ -83,6 +91,7 @@ Line ==
       mc |-> P.mc,
       cs |-> {Join(s) : s \in Syms(A)},
       nt |-> ShapeNotes(A),
+      ft |-> Features(A),
       m  |-> {DomStr[s] : s \in MS},
       x  |-> {DomStr[s] : s \in XS}]
 
